@@ -401,6 +401,7 @@ def run(ctx):
     _registered_hash(ctx)
     _frozen_after_recording(ctx)
     _no_zero_in_lists(ctx)
+    _next_index_after_renumbering(ctx)
 
 def _registered_hash(ctx):
     """R11.5: names are made unique through the _wrappers_by_hash registry; the
@@ -722,3 +723,63 @@ def _no_zero_in_lists(ctx):
             ctx.ob("R11.7", "%s|%s.push_back(%s)|from-%s" % (f.name, short, name, prod), ok, f.loc(c),
                    "`%s` (answer of %s(), 0 = none) is %stested before it is appended to %s" % (name, prod, "" if ok else "NOT ", short))
     ctx.floor("R11.7", "appends of looked-up indices to a type's lists", n, 8)
+
+
+def _next_index_after_renumbering(ctx):
+    """R11.8: the module definition compiled into the generated code carries [first_index, next_index) and
+    InterrogateDatabase::read() refuses a file whose entry count differs ("out of date").  remap_indices() closes the
+    gaps that remove_type() leaves, so a next_index taken BEFORE the renumbering can be too large.  (F-C11c, known.)"""
+    db = ctx.db
+    ctx.rule("R11.8", "in InterrogateBuilder::write_code no function that writes InterrogateDatabase::get_next_index() into the generated code (directly or through the interface makers' virtual write_* functions) is called before remap_indices(remaps)")
+    f = db.fn("InterrogateBuilder::write_code")
+    rm = [c for c in f.walk() if c.get("k") == "call" and c.get("f") == "InterrogateBuilder::remap_indices"]
+    if len(rm) != 1:
+        ctx.broken("R11.8: expected one remap_indices() call in write_code, found %d" % len(rm))
+    rloc = f.cfg.locate(rm[0])
+    bykey = db.by_key()
+    g = db.callgraph
+    # "reads" = writes it into the generated text (operand of an ostream <<); taking the next free index in order to
+    # allocate an entry is what get_next_index() is for
+    def emits(fn):
+        for c in fn.walk():
+            if c.get("k") == "call" and "operator<<" in (c.get("f") or ""):
+                for a in c.get("a", []):
+                    aa = strip_casts(peel(a))
+                    if aa is not None and aa.get("k") == "call" and aa.get("f") == "InterrogateDatabase::get_next_index":
+                        return True
+        return False
+    readers = {fn.key for fn in db.functions if "/interrogate/" in fn.file and emits(fn)}
+    if not readers:
+        ctx.ob("R11.8", "write_code|no-reader-of-next_index", True, f.loc(), "nothing in the generators reads get_next_index()")
+        return
+    by_ns = {}
+    for fn in db.functions:
+        by_ns.setdefault(fn.name + "|" + fn.sig, []).append(fn)
+    n = 0
+    seen_inst = set()
+    for c in f.walk():
+        if c.get("k") != "call" or "f" not in c:
+            continue
+        lc = f.cfg.locate(c)
+        if lc is None or rloc is None:
+            continue
+        # before the renumbering: the renumbering call is reachable from this call and this call is not reachable from it
+        before = (rloc[0] in f.cfg.reachable(lc[0]) and (lc[0] != rloc[0] or lc[1] < rloc[1])) and not (lc[0] in f.cfg.reachable(rloc[0]) and lc[0] != rloc[0])
+        ks = c["f"] + "|" + c.get("s", "")
+        targets = list(by_ns.get(ks, []))
+        if c.get("virt") and not c.get("qual"):
+            for o in db.overriders.get(ks, ()):
+                targets += by_ns.get(o, [])
+        for t in targets:
+            reach = db.closure([t])
+            hit = sorted(bykey[k].name for k in reach & readers)
+            if not hit:
+                continue
+            n += 1
+            inst = "write_code|%s|next_index-read-after-renumbering" % t.name
+            if inst in seen_inst:
+                continue
+            seen_inst.add(inst)
+            ctx.ob("R11.8", inst, not before, f.loc(c),
+                   "%s() writes get_next_index() into the generated code (in %s) and is called %s remap_indices(remaps)" % (t.name, ", ".join(hit), "BEFORE" if before else "after"))
+    ctx.floor("R11.8", "calls in write_code that reach a reader of get_next_index()", n, 1)
